@@ -33,7 +33,26 @@ class StrTok:
         return f"<str {self.name}>"
 
 
+def frame(run):
+    """C18/lark_interface.interegular_to_wfsa/modifies: the function writes only to the automaton it creates - in particular not to
+    the character set passed by the caller (every later automaton built with the same set must see the same set)."""
+    from vlib.pyvc import frames
+    name = "C18/lark_interface.interegular_to_wfsa/modifies"
+    fn = source.find(REL, "interegular_to_wfsa")
+    chk = frames.FrameChecker(fn, frames.Spec(), {})
+    findings, unclassified = chk.check()
+    if findings:
+        run.obligation(name, "refuted", backend="ownership", detail=str(findings[0]), model={"findings": [repr(f) for f in findings]},
+                       replay=dict(replayed=False, findings=[repr(f) for f in findings], hint="call interegular_to_wfsa twice with the same set object"),
+                       signature="interegular_to_wfsa:modifies")
+    elif unclassified:
+        run.obligation(name, "unknown", backend="ownership", detail="unclassified: " + "; ".join(repr(u) for u in unclassified[:3]))
+    else:
+        run.obligation(name, "proved", backend="ownership", detail="every store targets the automaton created in the call; the charset argument is only read")
+
+
 def proved(run):
+    frame(run)
     run.trust("pyvc symbolic interpreter over the real AST", f"z3 {z3.get_version_string()}")
     run.assume("A7: interegular parse_pattern(p).to_fsm() is a complete DFA for the language of p over its alphabet partition",
                "floats as mathematical reals (1/K exact)")
